@@ -74,6 +74,9 @@ Content(b, h) == SubSeq(b, h.cs, h.ce - 1)
 IsStr(b, h) == h.k = "s" /\ (h.one \/ CLen(h) # 1 \/ b[h.cs] >= 128)
 NoLeadingZero(b, h) == CLen(h) = 0 \/ b[h.cs] # 0
 IsEmptyItem(h) == ~h.one /\ CLen(h) = 0          \* 0x80 or 0xc0  (isEmptyRLPRaw)
+\* an integer VALUE is its minimal big-endian byte string (TLC integers are 32 bit); Num maps digits to the value
+RECURSIVE Num(_)
+Num(d) == IF d # <<>> /\ d[1] = 0 THEN Num(Tail(d)) ELSE d
 
 \* canonical headers (encode side)
 MinBE(n) == IF n < 256 THEN <<n>> ELSE IF n < 65536 THEN <<n \div 256, n % 256>>
@@ -167,7 +170,7 @@ DecReserved(b, h) ==
       ELSE IF IsEmptyItem(r.v[n].h) THEN Bad                                  \* "not trimmed"
       ELSE LET fh == r.v[1].h IN
         IF IsStr(b, fh) /\ CLen(fh) <= 4 /\ NoLeadingZero(b, fh)               \* Features is a uint32
-        THEN Ok([f |-> Content(b, fh), u |-> [i \in 1..(n - 1) |-> RawBytes(b, r.v[i + 1])]], h.ce)
+        THEN Ok([f |-> Num(Content(b, fh)), u |-> [i \in 1..(n - 1) |-> RawBytes(b, r.v[i + 1])]], h.ce)
         ELSE Bad
 
 \* block/extension.go DecodeRLP on a present item
@@ -190,7 +193,7 @@ DecExt(b, h) ==
           ELSE IF n = 2 THEN (IF ~com THEN Bad ELSE Ok([ExtAbsent EXCEPT !.alpha = alpha, !.com = TRUE], h.ce))
           ELSE LET fh == r.v[3].h IN
             IF IsStr(b, fh) /\ NoLeadingZero(b, fh)
-            THEN Ok([alpha |-> alpha, com |-> com, hasfee |-> TRUE, fee |-> Content(b, fh)], h.ce)
+            THEN Ok([alpha |-> alpha, com |-> com, hasfee |-> TRUE, fee |-> Num(Content(b, fh))], h.ce)
             ELSE Bad
 
 \* block/txs_root_features.go DecodeRLP, canonical: the pair form is for features # 0 only
@@ -203,7 +206,7 @@ DecTRF(b, h) ==
          IF /\ IsStr(b, rh) /\ CLen(rh) = HashLen
             /\ IsStr(b, fh) /\ CLen(fh) <= 4 /\ NoLeadingZero(b, fh)
             /\ CLen(fh) > 0                                                   \* canonical rule (implementation: F5)
-         THEN Ok([root |-> Content(b, rh), features |-> Content(b, fh)], h.ce)
+         THEN Ok([root |-> Content(b, rh), features |-> Num(Content(b, fh))], h.ce)
          ELSE Bad
   ELSE IF IsStr(b, h) /\ CLen(h) = HashLen THEN Ok([root |-> Content(b, h), features |-> <<>>], h.ce)
   ELSE Bad
@@ -221,8 +224,8 @@ DecEnvelope(body, b, h) ==
 Dec(s, b, p, e) ==
   LET h == Hdr(b, p, e) IN
   IF ~h.ok THEN Bad
-  ELSE CASE s.t = "uint"  -> IF IsStr(b, h) /\ CLen(h) <= s.n /\ NoLeadingZero(b, h) THEN Ok(Content(b, h), h.ce) ELSE Bad
-         [] s.t = "big"   -> IF IsStr(b, h) /\ NoLeadingZero(b, h) THEN Ok(Content(b, h), h.ce) ELSE Bad
+  ELSE CASE s.t = "uint"  -> IF IsStr(b, h) /\ CLen(h) <= s.n /\ NoLeadingZero(b, h) THEN Ok(Num(Content(b, h)), h.ce) ELSE Bad
+         [] s.t = "big"   -> IF IsStr(b, h) /\ NoLeadingZero(b, h) THEN Ok(Num(Content(b, h)), h.ce) ELSE Bad
          [] s.t = "bool"  -> IF IsStr(b, h) /\ (CLen(h) = 0 \/ (CLen(h) = 1 /\ b[h.cs] = 1)) THEN Ok(CLen(h) = 1, h.ce) ELSE Bad
          [] s.t = "bytes" -> IF IsStr(b, h) THEN Ok(Content(b, h), h.ce) ELSE Bad
          [] s.t = "fix"   -> IF IsStr(b, h) /\ CLen(h) = s.n THEN Ok(Content(b, h), h.ce) ELSE Bad
